@@ -34,7 +34,12 @@
 //	     foreign code can call; such a function is not callable from foreign code and is init-only
 //	     when all its calls lie in init-only functions;
 //	(C4) a package-level `error` variable set once, in the package initialiser, to errors.New /
-//	     fmt.Errorf and whose address is never taken is an immutable sentinel (no leak).
+//	     fmt.Errorf and whose address is never taken is an immutable sentinel (no leak);
+//	(C5) region-after-lookup-miss also recognises the key call's result handed through parameters
+//	     and results of such functions (the bare name only, never name@revision) and a look-up
+//	     done by a look-up helper (writes and calls nothing; returns only nil, such look-ups, or
+//	     values below the non-nil branch of their own nil test); the region is still the blocks
+//	     dominated by the nil branch of the test.
 //
 // The reviewed file allow.json (embedded) names the reader API, the declared guards and the
 // allow-list: write sites on reader paths that lie outside the claim of the property, each with
@@ -963,7 +968,8 @@ func (a *analyzer) missRegion(fi *fnInfo, callee, keyCall string) map[*ssa.Basic
 				return true
 			}
 		}
-		return false
+		// (C5) a look-up under a key built from the key call, or done by a look-up helper (callers.go)
+		return keyCall != "" && a.missValue(v, keyCall, map[ssa.Value]bool{})
 	}
 	region := map[*ssa.BasicBlock]bool{}
 	for _, b := range fn.Blocks {
